@@ -169,6 +169,7 @@ func (tw *TimingWheel) drainAll(fn func(key, value any)) {
 			task := e.Value.(*timingEntry)
 			next := e.Next()
 			slot.Remove(e)
+			tw.timers.Del(task.key)
 			e = next
 			if !task.removed {
 				runner.Schedule(func() {
